@@ -53,9 +53,20 @@ class C06A(Machine):
         node_ages = is_rooted is True and rng.random() < 0.35
         lengths = "dyadic" if (node_ages or rng.random() < 0.7) else rng.choice(["none", "mixed_none"])
         pool = []
+        # tips that are not contemporaneous: a label -> age map handed to the collections (heterochronous samples)
+        tip_ages = None
+        if node_ages and rng.random() < 0.35:
+            tip_ages = dict((l, rng.choice([0.0, 0.0, 0.125, 0.25])) for l in labs)
         for _ in range(rng.randint(2, 24 if tier == "thorough" else 12)):
             if node_ages:
                 spec = gen.ultrametric_spec(rng, labs)
+                if tip_ages:
+                    stack_ = [spec]
+                    while stack_:
+                        s_ = stack_.pop()
+                        if not s_[2]:
+                            s_[1] = s_[1] - tip_ages[s_[0]]      # every tip edge is at least 0.25 long
+                        stack_.extend(s_[2])
             else:
                 spec = gen.tree_spec(rng, labs, rng.choice(["binary", "binary", "poly", "caterpillar", "balanced", "star"]), lengths)
             pool.append({"spec": spec, "weight": rng.choice(WEIGHTS)})
@@ -65,6 +76,9 @@ class C06A(Machine):
             "use_tree_weights": rng.random() < 0.7,
             "ignore_edge_lengths": rng.random() < 0.15,
             "shard_rooting_given": [rng.random() < 0.5 for _ in range(nshards)],
+            "tip_ages": tip_ages,
+            # collectors created with the library's default settings: they take their settings from the first array they are updated from
+            "virgin": [nshards > 1 and rng.random() < 0.25 for _ in range(nshards)],
         }
         steps = []
         adds = ["add_tree", "add_tree", "append", "insert", "add_trees", "read"]
@@ -95,7 +109,8 @@ class C06A(Machine):
             is_rooted_trees=cfg["is_rooted"] if rooting_given else None,
             ignore_edge_lengths=cfg["ignore_edge_lengths"],
             ignore_node_ages=not cfg["node_ages"],
-            use_tree_weights=cfg["use_tree_weights"])
+            use_tree_weights=cfg["use_tree_weights"],
+            taxon_label_age_map=cfg.get("tip_ages") or None)
 
     def _tree(self, cfg, ns, entry):
         t = gen.build_tree(dendropy, entry["spec"], ns, is_rooted=cfg["is_rooted"])
@@ -110,6 +125,10 @@ class C06A(Machine):
         ns = dendropy.TaxonNamespace(cfg["labels"])
         given = cfg["shard_rooting_given"]
         shards = [self._new_array(cfg, ns, given[i] if i < len(given) else True) for i in range(nshards)]
+        virgin = list(cfg.get("virgin") or [False] * nshards) + [False] * nshards
+        for i in range(nshards):
+            if virgin[i]:
+                shards[i] = dendropy.TreeArray(taxon_namespace=ns, taxon_label_age_map=cfg.get("tip_ages") or None)
         model = [[] for _ in range(nshards)]
         merged_nonempty = 0
         merged_empty = 0
@@ -120,6 +139,8 @@ class C06A(Machine):
             op = st["op"]
             if op == "add":
                 k = st["shard"] % nshards
+                if virgin[k]:
+                    continue        # a collector only takes what it is updated from
                 ta = shards[k]
                 ti = st["tree"] % len(pool)
                 how = st["how"]
@@ -156,6 +177,8 @@ class C06A(Machine):
                 a = st["dst"] % nshards
                 b = st["src"] % nshards
                 how = st["how"]
+                if virgin[b] or (virgin[a] and how != "update"):
+                    continue        # only update() is documented to let an empty array adopt the settings of its source
                 if len(model[a]) + len(model[b]) > 64:
                     rec.ev("merge_skipped_size_cap")
                     continue        # merges double the content; keep collections small
@@ -177,6 +200,9 @@ class C06A(Machine):
                                       how, type(e).__name__, e, len(model[a]), len(model[b])))
                     raise StopRun()
                 model[a] = model[a] + list(model[b])
+                if virgin[a]:
+                    virgin[a] = False
+                    rec.probe("settings_adopted_by_empty_collector")
                 if src_empty or dst_empty:
                     merged_empty += 1
                     rec.probe("merge_with_empty_shard")
